@@ -39,7 +39,8 @@ LEVEL = {'text': 'Machine-checked, 30 theorems closed under the global context, 
                  'calls on one ELFFile object (state = the cached section name map) answers each call as a fresh object would, with the '
                  'view of that call\'s own flags [C11_calls_stateless, C11_calls_views]; has_dwarf_info = '
                  'the presence formula [C11_presence_exact(_img)]; bitwise CRC-32 = polynomial division, chunked = whole file; the model '
-                 'raises ELFError on CRC mismatch, AssertionError on bad legacy framing, ELFCompressionError when the declared size '
+                 'raises ELFError on CRC mismatch, ELFCompressionError on bad legacy framing (repaired in /repo 30d0c52: the checks were assert '
+                 'statements, void under python -O), ELFCompressionError when the declared size '
                  'differs from the inflated size in either direction (+ the pre-d25be29 acceptance as a witnessed theorem). '
                  'Code data tied by regeneration: the section-name tuple and DWARFInfo wiring of get_dwarf_info, the names of '
                  'has_dwarf_info / the link section, the legacy-framing constants, the shapes of Gnu_debuglink / Dwarf_debugsup / '
@@ -65,6 +66,10 @@ RULE = ('cases: every seed object under seeds/c11 and every ELF under test/testf
         'same NT_GNU_BUILD_ID note with per-byte CRC corruptions and payload modifications; two-hop chains debug link -> supplementary link (own builders and the '
         'dwz-produced test files whose DIEs use the alt/sup forms); keep-debug = unobserved sections made SHT_NOBITS), presence truth table over all subsets of {.debug_info, .zdebug_info, '
         '.eh_frame, .gnu_debuglink, .gnu_debugaltlink, .debug_sup} x strict x loader x class x byte order on section-only files, '
+        'also x the section TYPE of each name (PROGBITS / NOBITS / NOTE / OS-specific) with has_dwarf_info compared to what '
+        'get_dwarf_info() then offers; stream kinds (file, small buffer, mmap, gzip, decoy fd ...) drawn for the file and for what the '
+        'loader hands out; one unit with DW_FORM_strp and strp_sup / GNU_strp_alt attributes at EQUAL offsets (entry strings against '
+        'the same entries with inline strings, two passes); '
         'synthetic images in all class/byte-order '
         'combinations, presence truth table, malformed framings. distinct = hash(kind, abstract); non-trivial = at least '
         'one section re-encoded, a link followed, or an error case')
